@@ -257,6 +257,18 @@ def _fold_loop_body(stmts, env, sink):
                     return r
             elif isinstance(st, ast.Continue):
                 return "continue"
+            elif isinstance(st, ast.While) and not st.orelse:
+                for _round in range(64):
+                    okc, val = _fold_env(st.test, env)
+                    if not okc:
+                        return ("raises", val)
+                    if not val:
+                        break
+                    r = run(st.body)
+                    if r is not None and r != "continue":
+                        return r
+                else:
+                    raise AnalysisError(f"`{short(st)}` does not terminate within 64 rounds for the probe literal")
             elif isinstance(st, (ast.Assign, ast.AnnAssign)) and isinstance(st.targets[0] if isinstance(st, ast.Assign) else st.target, ast.Name) and st.value is not None:
                 okc, val = _fold_env(st.value, env)
                 if not okc:
@@ -397,7 +409,7 @@ def r19_14(ctx):
 
 
 def r19_15(ctx):
-    ctx.rule("R19.15", "a carriage return discards only what precedes it: decode_line keeps what follows the last '\\r' so that a line rewritten in place shows its final state, but a line that merely ends in '\\r' (every line of CRLF output) has nothing after it and must keep its text. The statements that reduce the line before it is tokenized are folded for the literal 'ab\\r': the result must still contain 'ab'")
+    ctx.rule("R19.15", "a carriage return discards only the TEXT that precedes it: a line rewritten in place shows its final state, but (a) a line that merely ends in '\\r' (every line of CRLF output) has nothing after it and keeps its text, and (b) escape sequences in front of the carriage return still set the style of what follows. The statements that reduce the line before it is tokenized are folded for the literals 'ab\\r', 'xy\\rab' and '\\x1b[1mxy\\rab': the result must still contain 'ab' resp. the escape sequence")
     f = ctx.repo.fn("ansi:AnsiDecoder.decode_line")
     m = f.module
     if len(f.params) < 2:
@@ -414,7 +426,7 @@ def r19_15(ctx):
     if len(tcall.args) != 1:
         raise AnalysisError("decode_line: _ansi_tokenize is not called with one argument")
     results = {}
-    for probe in ("ab\r", "ab\r\r", "xy\rab"):
+    for probe in ("ab\r", "ab\r\r", "xy\rab", "\x1b[1mxy\rab"):
         env = {lv: probe}
         for st in f.node.body:
             if st is top:
@@ -446,6 +458,11 @@ def r19_15(ctx):
         ctx.violation(f.fq, norm(tcall), where, f"a line that ends in a carriage return is reduced to {results[bad[0]]!r} before it is tokenized ({bad[0]!r} -> {results[bad[0]]!r}): every line of CRLF output written to a redirected stream is printed empty - FileProxy.write('hello\\r\\n') prints a blank line")
     else:
         ctx.ok(where, f"'ab\\r' is tokenized as {results['ab' + chr(13)]!r}, 'xy\\rab' as {results['xy' + chr(13) + 'ab']!r}", f.fq)
+    esc = results["\x1b[1mxy\rab"]
+    if "\x1b[1m" not in esc:
+        ctx.violation(f.fq, norm(tcall), where, f"the part of the line in front of a carriage return is cut off before the line is tokenized ('\\x1b[1mxy\\rab' -> {esc!r}): escape sequences in it are thrown away with the text - '\\x1b[1;31mloading 50%\\rloading 100%' decodes to an unstyled 'loading 100%' and the running style is not updated, while a terminal shows it (and the following lines) bold red")
+    else:
+        ctx.ok(where, "escape sequences in front of a carriage return reach the tokenizer", f.fq)
     if "ab" not in results["xy\rab"]:
         ctx.violation(f.fq, norm(tcall), where, f"the text after the last carriage return is lost ('xy\\rab' -> {results['xy' + chr(13) + 'ab']!r})")
 
@@ -707,10 +724,16 @@ def r19_10(ctx):
     al = alias_map(f.node)
     from ..astutil import single_defs as _sdf
     sd = _sdf(f.node)
-    accs = {k for k, v in sd.items() if isinstance(v, ast.Call) and norm(v.func) == "Text" and not v.args and not v.keywords}
+    # the accumulator: a name bound only to fresh empty Texts (once, or again where a carriage return restarts the line)
+    binds = {}
+    for x in walk_local(f.node):
+        if isinstance(x, ast.Assign) and len(x.targets) == 1 and isinstance(x.targets[0], ast.Name):
+            binds.setdefault(x.targets[0].id, []).append(x.value)
+    accs = {k for k, vs in binds.items() if all(isinstance(v, ast.Call) and norm(v.func) == "Text" and not v.args and not v.keywords for v in vs)}
     if len(accs) != 1:
         raise AnalysisError("AnsiDecoder.decode_line: expected one accumulator `text = Text()`")
     acc = accs.pop()
+    appenders = {f"{acc}.append"} | {k for k, vs in binds.items() if all(norm(v) == f"{acc}.append" for v in vs)}
     rets = [r for r in walk_local(f.node) if isinstance(r, ast.Return)]
     ctx.floor(len(rets), 1, "returns of decode_line")
     for r in rets:
@@ -729,7 +752,7 @@ def r19_10(ctx):
             raise AnalysisError(f"AnsiDecoder.decode_line: `{short(r)}` returns something this rule does not read")
     n = 0
     for x in walk_local(f.node):
-        if isinstance(x, ast.Call) and norm(expand_alias(x.func, al)) == f"{acc}.append" and x.args:
+        if isinstance(x, ast.Call) and (norm(expand_alias(x.func, al)) == f"{acc}.append" or norm(x.func) in appenders) and x.args:
             n += 1
             st = x.args[1] if len(x.args) > 1 else next((k.value for k in x.keywords if k.arg == "style"), None)
             ctx.check(st is not None and "self.style" in norm(st), f.fq, short(x), f"{m.relpath}:{x.lineno}", "plain text appended with the current style",
